@@ -479,4 +479,4 @@ MANIFEST = {
     'design_ref': 'DESIGN.md 3/C02',
 }
 MANIFEST['note'] += (' Also decided here (necessary conditions shared between properties or added after the independent '
-                     'change rounds, DESIGN.md 8.7): proposal routines incl. key length in transform identity (from C11), pre-authentication states by name.')
+                     'change rounds, DESIGN.md 8.7): proposal routines incl. key length in transform identity (from C11), pre-authentication states by name. Rounds 7-8: state predicates written as enumeration properties; prf is the library HMAC and SK_pi / SK_pr are the prf-sized tail of the key material (from C04).')
